@@ -22,7 +22,10 @@ ASSUMPTIONS = ['unresolved items (unknown functions, missing sheets) in round tr
 
 SHEETNAMES = ['S', 'Data 1', "It's", 'x-y', '1st', 'a.b', 'Über', 'lower', 'A1', 'TRUE']
 TEXTS = [('formula-like', '=1+1'), ('quote', 'say "hi"'), ('apostrophe', "it's"), ('empty', ''), ('eq', '='), ('space', ' pad '), ('hash', '#EMPTY'), ('err-like', '#N/A x'),
-         ('num-like', '007'), ('plus', '+1'), ('at', '@x'), ('brace', '{=1}')]
+         ('num-like', '007'), ('plus', '+1'), ('at', '@x'), ('brace', '{=1}'),
+         # the import side tolerates leading blanks and sheet prefixes, so must the escaping on export
+         ('sp-formula', ' =1+1'), ('sp-brace', '  {=SUM(1,2)}'), ('sheet-err', 'Data!#REF!'), ('qsheet-err', "'My Sheet'!#N/A"), ('sp-err', ' #DIV/0!'),
+         ('nl-formula', '\n=2*3'), ('tab-formula', '\t=2*3'), ('sp-empty', ' #EMPTY'), ('lower-empty', '#empty'), ('brace-sp', '{ = 1 }'), ('eq-only-sp', ' = ')]
 CONSTS = [('int', ['n', 3.0]), ('frac', ['n', 0.1]), ('neg', ['n', -2.5]), ('big', ['n', 1e+20]), ('true', ['b', True]), ('false', ['b', False])] + \
          [('err' + e, ['e', e]) for e in ERRS] + [('text-' + k, ['t', v]) for k, v in TEXTS]
 
